@@ -217,6 +217,9 @@ class Facts:
             raw = json.load(fh)
         self.raw = raw
         self.path = path
+        # code in functions that did not exist on the pinned tree is attributed to their callers (yk/inline.py)
+        from . import inline
+        self.inline_log = inline.apply(raw, lambdas=os.environ.get('YK_INLINE_LAMBDAS', '1') != '0')
         self.include_root = raw.get('include_root')
         self.records = raw.get('records', {})
         self.globals = raw.get('globals', {})
